@@ -138,12 +138,16 @@ def handler_action(rt, chart, e, i, key, a):
     ev = Event(signal=signals[a[1]], payload=rt.ids[0])
     getattr(chart, k)(ev)
     rt.actlog.append((k, rt.ids[0]))
+    if rt.keep_raw:
+      rt.raw.append(("act", k, a[1]))
   elif k == "defer_e":
     if rt.budget <= 0:
       return
     rt.budget -= 1
     chart.defer(e)
     rt.actlog.append(("defer", e.payload))
+    if rt.keep_raw:
+      rt.raw.append(("act", "defer", e.signal_name))
   elif k == "recall":
     if rt.budget <= 0:
       return
@@ -151,9 +155,13 @@ def handler_action(rt, chart, e, i, key, a):
     r = chart.recall()
     rt.recalled.append(r)
     rt.actlog.append(("recall", r.payload if r is not None else None))
+    if rt.keep_raw:
+      rt.raw.append(("act", "recall", r.signal_name if r is not None else None))
   elif k == "scribble":
     chart.scribble(a[1])
     rt.actlog.append(("scribble", a[1]))
+    if rt.keep_raw:
+      rt.raw.append(("act", "scribble", a[1]))
   elif k == "is_in":
     chart.is_in(rt.fns[a[1]])
 
@@ -211,6 +219,7 @@ class RealQueued:
     return o
 
   def _collect(self, o):
+    o.extra["raw"] = list(self.rt.raw)
     o.log = list(self.rt.log)
     o.actlog = list(self.rt.actlog)
     o.dispatched = [e.payload for e in self.steps]
